@@ -227,16 +227,16 @@ func c10Exec(x *engine.Ctx, cc any) {
 		x.TraceValidated(1)
 	} else {
 		res := drive.Run(w, strat, nil)
-		if res.Panic != "" {
-			x.Violation("C10/panic/"+res.PanicSite, res.Panic+" "+c10Desc(c))
-			return
-		}
 		ok1, sum1 = res.OK(), res.Summary()+" "+errStr(res.Err())
 		planned = res.PlanAliases()
 	}
 	x.Transition(1)
 	if !ok1 {
-		x.Violation("C10/first-run-failed/"+layer+" "+c10ToggleClass(c), c10Desc(c)+": "+sum1)
+		// the statement speaks about what follows a successful run; a failing or crashing
+		// first run (e.g. an issuer that has a key but no certificate and is not regenerated
+		// under these flags) belongs to C20
+		_ = sum1
+		x.Outcome(layer + " first run did not succeed (outside C10)")
 		return
 	}
 	// only artifacts were written; in the library flow exactly those of the planned entities
